@@ -46,7 +46,7 @@ import props.anchors as anchors
 
 def run(ctx, chk):
     O, P = ctx.O, ctx.P
-    anchors.check(ctx, chk, ['header_write', 'update_computed', 'reset_base'])
+    anchors.check(ctx, chk, ['header_write', 'update_computed', 'reset_base', 'eager_version'])
     comp = {bid: b for bid, b in P.bodies.items() if is_compute(bid) and b.kind != "closure"}
     if len(comp) < 70:
         raise AnchorMissing("expected >= 70 compute_* methods of EagerVec, found %d" % len(comp))
